@@ -196,6 +196,9 @@ def msgEdit? : List String → Option MsgEdit
     | some k, some v => some (.hset k v)
     | _, _ => none
   | ["hdel", k] => (hexOr k).map .hdel
+  | ["hrep", h] => match optFields? h with
+    | some (some h) => some (.hrep h)
+    | _ => none
   | ["hadd", k, v] => match hexOr k, hexOr v with
     | some k, some v => some (.hadd k v)
     | _, _ => none
@@ -213,6 +216,8 @@ def dnsEdit? : List String → Option DnsEdit
   | ["qname", i, a] => match i.toNat?, a.toNat? with
     | some i, some a => some (.qname i a)
     | _, _ => none
+  | ["qappend", q] => (atoms? q).map .qappend
+  | ["qclear"] => some .qclear
   | _ => none
 
 def edit? : List String → Option Edit
